@@ -57,6 +57,7 @@ Record Inv (tr : list ev) (s : state) : Prop := {
   i_started : forall a, started tr a =
       match m_map s a, c_map s a with Some t, Some id => Some (t, id) | _, _ => None end;
   i_set_cmap : forall a, m_map s a <> None -> c_map s a <> None;
+  i_pend : forall a, k_pend s a = true -> c_map s a <> None /\ m_map s a = None;
   i_th_range : forall th n, c_thread_no s th = Some n -> 1 <= n < c_thread_ctr s;
   i_th_inj : forall th th' n, c_thread_no s th = Some n -> c_thread_no s th' = Some n -> th = th';
   i_tk : forall a kn, c_task_no s a = Some kn ->
@@ -98,13 +99,13 @@ Definition with_thread (s : state) (th : Z) : state * Z :=
   match c_thread_no s th with
   | Some tn => (s, tn)
   | None =>
-    (mkSt (k_set s) (c_thread_ctr s + 1) (updf Z.eqb (c_thread_no s) th (Some (c_thread_ctr s)))
+    (mkSt (k_set s) (k_pend s) (c_thread_ctr s + 1) (updf Z.eqb (c_thread_no s) th (Some (c_thread_ctr s)))
           (c_task_ctr s) (c_task_no s) (c_map s) (m_ctr s) (m_map s), c_thread_ctr s)
   end.
 
 Lemma with_thread_inv s th : CInv s ->
   let '(s1, tn) := with_thread s th in
-  CInv s1 /\ c_thread_no s1 th = Some tn /\ k_set s1 = k_set s /\ m_ctr s1 = m_ctr s /\ m_map s1 = m_map s /\
+  CInv s1 /\ c_thread_no s1 th = Some tn /\ k_set s1 = k_set s /\ k_pend s1 = k_pend s /\ m_ctr s1 = m_ctr s /\ m_map s1 = m_map s /\
   c_map s1 = c_map s /\ c_task_no s1 = c_task_no s /\ c_task_ctr s1 = c_task_ctr s /\
   (forall x n, c_thread_no s x = Some n -> c_thread_no s1 x = Some n).
 Proof.
@@ -134,7 +135,7 @@ Lemma compose_eq s a :
     | Some kn => (s1, (tn, Some kn))
     | None =>
       let kn := c_task_ctr s1 tn in
-      (mkSt (k_set s1) (c_thread_ctr s1) (c_thread_no s1) (updf Z.eqb (c_task_ctr s1) tn (kn + 1))
+      (mkSt (k_set s1) (k_pend s1) (c_thread_ctr s1) (c_thread_no s1) (updf Z.eqb (c_task_ctr s1) tn (kn + 1))
             (updf actor_eqb (c_task_no s1) a (Some kn)) (c_map s1) (m_ctr s1) (m_map s1), (tn, Some kn))
     end
   end.
@@ -147,11 +148,11 @@ Definition good_id (s : state) (a : actor) (id : ttid) : Prop :=
 
 Lemma compose_inv s a : CInv s ->
   let '(s1, id) := compose s a in
-  CInv s1 /\ good_id s1 a id /\ k_set s1 = k_set s /\ m_ctr s1 = m_ctr s /\ m_map s1 = m_map s /\ c_map s1 = c_map s.
+  CInv s1 /\ good_id s1 a id /\ k_set s1 = k_set s /\ k_pend s1 = k_pend s /\ m_ctr s1 = m_ctr s /\ m_map s1 = m_map s /\ c_map s1 = c_map s.
 Proof.
   intros I. rewrite compose_eq. pose proof (with_thread_inv s (fst a) I) as W.
   destruct (with_thread s (fst a)) as [s1 tn].
-  destruct W as (I1 & Hth & Hk & Hc & Hm & Hcm & Htk & Htc & Hmono).
+  destruct W as (I1 & Hth & Hk & Hkp & Hc & Hm & Hcm & Htk & Htc & Hmono).
   destruct a as [th [k|]]; simpl in *.
   2:{ split; [exact I1|]. repeat split; auto. }
   destruct (c_task_no s1 (th, Some k)) as [kn|] eqn:Ek.
@@ -179,13 +180,13 @@ Qed.
 
 Lemma composer_call_inv s a : CInv s ->
   let '(s1, id) := composer_call s a in
-  CInv s1 /\ c_map s1 a = Some id /\ k_set s1 = k_set s /\ m_ctr s1 = m_ctr s /\ m_map s1 = m_map s /\
+  CInv s1 /\ c_map s1 a = Some id /\ k_set s1 = k_set s /\ k_pend s1 = k_pend s /\ m_ctr s1 = m_ctr s /\ m_map s1 = m_map s /\
   (forall b, b <> a -> c_map s1 b = c_map s b) /\ (forall b id', c_map s b = Some id' -> c_map s1 b = Some id').
 Proof.
   intros I. unfold composer_call. destruct (c_map s a) as [id|] eqn:E.
   - split; [exact I|]. repeat split; auto.
   - pose proof (compose_inv s a I) as W. destruct (compose s a) as [s1 id].
-    destruct W as (I1 & G & Hk & Hc & Hm & Hcm). destruct I1. split; [|repeat split; simpl; auto].
+    destruct W as (I1 & G & Hk & Hkp & Hc & Hm & Hcm). destruct I1. split; [|repeat split; simpl; auto].
     + constructor; simpl; eauto. intros a' tn okn H. unfold updf in H.
       destruct (actor_eqb_spec a' a); [|eauto].
       subst. inversion H; subst. destruct G as [G1 G2]. simpl in *. split; auto.
@@ -195,7 +196,7 @@ Proof.
 Qed.
 
 Definition is_start (e : ev) : bool :=
-  match e with (Filtered _, OStart _ _ _) => true | _ => false end.
+  match e with (Mapped _, OStart _ _ _) => true | _ => false end.
 
 Lemma Inv_silent tr s e : is_start e = false -> Inv tr s -> Inv (tr ++ [e]) s.
 Proof.
@@ -206,33 +207,54 @@ Qed.
 
 Lemma Inv_step tr s l : Inv tr s -> Inv (tr ++ [(l, snd (step s l))]) (fst (step s l)).
 Proof.
-  intros I. destruct l as [a|a x|a].
-  2:{ simpl. apply Inv_silent; auto. }
-  2:{ simpl. destruct (m_map s a); simpl; apply Inv_silent; auto. }
-  simpl. destruct (k_set s a) eqn:Ek; [simpl; apply Inv_silent; auto|].
-  pose proof (composer_call_inv s a (Inv_CInv _ _ I)) as W.
-  destruct (composer_call s a) as [s1 id]. destruct W as (C1 & Hid & Hk & Hc & Hm & Hother & Hmono).
-  assert (Hma : m_map s a = None).
-  { destruct (m_map s a) eqn:E; auto. assert (k_set s a = true) by (apply (i_set _ _ I); congruence). congruence. }
-  destruct I. destruct i_pos0 as (P1 & P2 & P3). destruct C1. simpl.
-  constructor; simpl; eauto.
-  - rewrite Hc. repeat split; try lia; tauto.
-  - intros b t H. unfold updf in H. rewrite Hc. destruct (actor_eqb_spec b a).
-    + inversion H; subst. lia.
-    + rewrite Hm in H. apply i_tr_range0 in H. lia.
-  - intros b b' t H H0. unfold updf in *. rewrite Hc, Hm in *.
-    destruct (actor_eqb_spec b a); destruct (actor_eqb_spec b' a); subst; auto.
-    + inversion H; subst. apply i_tr_range0 in H0. lia.
-    + inversion H0; subst. apply i_tr_range0 in H. lia.
-    + eauto.
-  - intros b. unfold updf. rewrite Hk, Hm. destruct (actor_eqb_spec b a); [split; intros; congruence|apply i_set0].
-  - intros b. rewrite started_app, i_started0. simpl. unfold updf. rewrite Hm, Hc.
-    destruct (actor_eqb_spec b a).
-    + subst. rewrite Hma, Hid. destruct id; reflexivity.
-    + rewrite (Hother _ n). destruct (m_map s b), (c_map s b); reflexivity.
-  - intros b H. unfold updf in H. destruct (actor_eqb_spec b a); [subst; congruence|].
-    rewrite Hm in H. apply i_set_cmap0 in H. destruct (c_map s b) eqn:E; [|congruence].
-    rewrite (Hmono _ _ E). discriminate.
+  intros I. destruct l as [a|a|a x|a].
+  3:{ simpl. apply Inv_silent; auto. }
+  3:{ simpl. destruct (m_map s a); simpl; apply Inv_silent; auto. }
+  - (* Filtered: thread / task numbers *)
+    simpl. destruct (k_set s a || k_pend s a) eqn:Ek; [simpl; apply Inv_silent; auto|].
+    apply orb_false_iff in Ek. destruct Ek as [Ek Ep].
+    pose proof (composer_call_inv s a (Inv_CInv _ _ I)) as W.
+    destruct (composer_call s a) as [s1 id]. destruct W as (C1 & Hid & Hk & Hkp & Hc & Hm & Hother & Hmono).
+    assert (Hma : m_map s a = None).
+    { destruct (m_map s a) eqn:E; auto. assert (k_set s a = true) by (apply (i_set _ _ I); congruence). congruence. }
+    simpl. apply Inv_silent; [reflexivity|].
+    destruct I. destruct i_pos0 as (P1 & P2 & P3). destruct C1. simpl.
+    constructor; simpl; eauto.
+    + rewrite Hc. repeat split; try lia; tauto.
+    + intros b t H. rewrite Hm in H. rewrite Hc. eauto.
+    + intros b b' t H H0. rewrite Hm in *. eauto.
+    + intros b. rewrite Hk, Hm. apply i_set0.
+    + intros b. rewrite i_started0, Hm. destruct (actor_eqb_spec b a).
+      * subst. rewrite Hma. reflexivity.
+      * rewrite (Hother _ n). reflexivity.
+    + intros b H. rewrite Hm in H. apply i_set_cmap0 in H. destruct (c_map s b) eqn:E; [|congruence].
+      rewrite (Hmono _ _ E). discriminate.
+    + intros b H. unfold updf in H. rewrite Hm. destruct (actor_eqb_spec b a).
+      * subst. split; [congruence|assumption].
+      * rewrite Hkp in H. destruct (i_pend0 _ H) as [A B]. split; auto.
+        destruct (c_map s b) eqn:E; [|congruence]. rewrite (Hmono _ _ E). discriminate.
+  - (* Mapped: trace number, OnStartTrace *)
+    simpl. destruct (k_pend s a) eqn:Ep; [|simpl; apply Inv_silent; auto].
+    destruct (i_pend _ _ I _ Ep) as [Hca Hma].
+    destruct (c_map s a) as [id|] eqn:Eid; [|congruence].
+    destruct I. destruct i_pos0 as (P1 & P2 & P3). simpl.
+    constructor; simpl; eauto.
+    + repeat split; try lia; tauto.
+    + intros b t H. unfold updf in H. destruct (actor_eqb_spec b a).
+      * inversion H; subst. lia.
+      * apply i_tr_range0 in H. lia.
+    + intros b b' t H H0. unfold updf in *.
+      destruct (actor_eqb_spec b a); destruct (actor_eqb_spec b' a); subst; auto.
+      * inversion H; subst. apply i_tr_range0 in H0. lia.
+      * inversion H0; subst. apply i_tr_range0 in H. lia.
+      * eauto.
+    + intros b. unfold updf. destruct (actor_eqb_spec b a); [split; intros; congruence|apply i_set0].
+    + intros b. rewrite started_app, i_started0. simpl. unfold updf.
+      destruct (actor_eqb_spec b a).
+      * subst. rewrite Hma, Eid. destruct id; reflexivity.
+      * destruct (m_map s b), (c_map s b); reflexivity.
+    + intros b H. unfold updf in H. destruct (actor_eqb_spec b a); [subst; congruence|eauto].
+    + intros b H. unfold updf in *. destruct (actor_eqb_spec b a); [discriminate|eauto].
 Qed.
 
 Theorem Inv_reach : forall ls, Inv (trace ls) (final ls).
@@ -332,12 +354,14 @@ Proof.
     destruct IHls as [IH1 IH2]. rewrite trace_snoc, final_snoc.
     assert (Happ : forall a b, starts (a ++ b) = starts a ++ starts b).
     { induction a as [|[[] []] a IHa]; intros; simpl; rewrite ?IHa; reflexivity. }
-    rewrite Happ. destruct x as [a|a y|a]; simpl.
-    - destruct (k_set (final ls) a) eqn:Ek; simpl; [rewrite app_nil_r; auto|].
+    rewrite Happ. destruct x as [a|a|a y|a]; simpl.
+    - destruct (k_set (final ls) a || k_pend (final ls) a) eqn:Ek; simpl; [rewrite app_nil_r; auto|].
       pose proof (composer_call_inv (final ls) a (Inv_CInv _ _ (Inv_reach ls))) as W.
-      destruct (composer_call (final ls) a) as [s1 id]. destruct W as (_ & _ & _ & Hc & _). simpl.
+      destruct (composer_call (final ls) a) as [s1 id]. destruct W as (_ & _ & _ & _ & Hc & _). simpl.
+      rewrite app_nil_r, Hc. auto.
+    - destruct (k_pend (final ls) a); simpl; [|rewrite app_nil_r; auto].
       rewrite app_length, map_app. simpl. rewrite Nat.add_1_r, seq_S, map_app, <- IH1. simpl.
-      rewrite Hc, IH2. split; [reflexivity|lia].
+      rewrite IH2. split; [reflexivity|lia].
     - rewrite app_nil_r. auto.
     - destruct (m_map (final ls) a); simpl; rewrite app_nil_r; auto. }
   apply H.
